@@ -5,6 +5,7 @@ pub mod chain;
 pub mod c01;
 pub mod backend;
 pub mod middle;
+pub mod c11;
 pub mod c14;
 pub mod c15;
 pub mod c16;
@@ -145,6 +146,7 @@ pub fn run_prop(ctx: &Ctx, acc: &mut Acc) -> Result<(), String> {
         "C04" => middle::c04(ctx, acc),
         "C05" => middle::c05(ctx, acc),
         "C12" => middle::c12(ctx, acc),
+        "C11" => c11::run(ctx, acc),
         "C14" => c14::run(ctx, acc),
         "C15" => c15::run(ctx, acc),
         "C16" => c16::run(ctx, acc),
@@ -162,6 +164,7 @@ pub fn replay_prop(prop: &str, payload: &J, acc: &mut Acc) -> Result<(), String>
     match prop {
         "C01" => c01::replay(payload, acc),
         "C02" | "C03" | "C04" | "C05" | "C12" => middle::replay(prop, payload, acc),
+        "C11" => c11::replay(payload, acc),
         "C14" => c14::replay(payload, acc),
         "C15" => c15::replay(payload, acc),
         "C16" => c16::replay(payload, acc),
